@@ -201,11 +201,19 @@ func c15R1(c *Ctx) {
 			}
 		}
 	}
+	errFlow := func(call ssa.CallInstruction) ErrFlowResult {
+		r := ErrFlow(call, ErrFlowOpts{})
+		if !r.OK && c15ErrFlowPathSensitive(call) {
+			return ErrFlowResult{OK: true, How: "tested; every feasible failure path returns a non-nil error (the error variable is shared with a later step)"}
+		}
+		return r
+	}
+	_ = errFlow
 	// every JSON decode / ReadAll of these packages (all of them read registry or token responses, in the function or a helper): errors propagate
 	for _, rel := range c15Pkgs {
 		for _, f := range c.P.FuncsOfPkg(rel) {
 			for _, call := range CallsTo(f, "(*encoding/json.Decoder).Decode", "io.ReadAll") {
-				r := ErrFlow(call, ErrFlowOpts{})
+				r := errFlow(call)
 				c.Check(RE, FnName(f)+"|"+CalleeName(call), call.Pos(), r.OK, r.How+r.Detail)
 			}
 		}
@@ -293,7 +301,7 @@ func c15R1(c *Ctx) {
 				c.Check(RS, key, call.Pos(), ok,
 					ifelse(ok, "the read is dominated by the nil edge of "+FnName(SL)+" on the same descriptor",
 						"a descriptor-sized read ("+name+") can be reached without a successful size guard on that descriptor: a manifest of any declared size would be read into memory"))
-				r := ErrFlow(call, ErrFlowOpts{})
+				r := errFlow(call)
 				c.Check(RE, key, call.Pos(), r.OK, r.How+r.Detail)
 			}
 		}
@@ -403,6 +411,100 @@ func c15HelperHandsBack(g *ssa.Function, call ssa.CallInstruction, v ssa.Value) 
 		}
 	}
 	return true
+}
+
+// c15ErrFlowPathSensitive: a second opinion for the shared ErrFlow when the
+// error is merged into a variable that a later step also assigns
+// (`x, err := a(); if err == nil { err = b(x) }; if err != nil { return … }`):
+// walk forward from the non-nil edges keeping the set of values known non-nil
+// (phis inherit it along the arrival edge) and prune the nil side of tests on
+// them; every return reached must carry a non-nil error.
+func c15ErrFlowPathSensitive(call ssa.CallInstruction) bool {
+	fn := call.Parent()
+	errIdx := ErrResultIndex(fn.Signature)
+	e := ErrOf(call)
+	if e == nil || errIdx < 0 {
+		return false
+	}
+	_, nonNilE, ifs := NilTests(fn, Aliases(e))
+	if len(ifs) == 0 {
+		return false
+	}
+	type state struct {
+		b    *ssa.BasicBlock
+		pred *ssa.BasicBlock
+	}
+	ok := true
+	var walk func(b, pred *ssa.BasicBlock, known map[ssa.Value]bool, seen map[state]bool)
+	walk = func(b, pred *ssa.BasicBlock, known map[ssa.Value]bool, seen map[state]bool) {
+		if !ok || seen[state{b, pred}] {
+			return
+		}
+		seen[state{b, pred}] = true
+		k2 := map[ssa.Value]bool{}
+		for v := range known {
+			k2[v] = true
+		}
+		for _, in := range b.Instrs {
+			switch u := in.(type) {
+			case *ssa.Phi:
+				for i, p := range b.Preds {
+					if p == pred && known[u.Edges[i]] {
+						k2[u] = true
+					}
+				}
+			case *ssa.Return:
+				v := u.Results[errIdx]
+				if !(k2[v] || ErrNilStatus(v, 0) == NonNil || derivesFromAny(v, k2, 0)) {
+					ok = false
+				}
+				return
+			}
+			if in == call.(ssa.Instruction) {
+				return // a new attempt: a new error value
+			}
+		}
+		if iff, isIf := b.Instrs[len(b.Instrs)-1].(*ssa.If); isIf {
+			cond, t, f := ifEdges(iff)
+			if bo, isBin := cond.(*ssa.BinOp); isBin && (bo.Op == token.EQL || bo.Op == token.NEQ) {
+				var x ssa.Value
+				if isNilConst(bo.Y) {
+					x = bo.X
+				} else if isNilConst(bo.X) {
+					x = bo.Y
+				}
+				if x != nil && k2[x] { // known non-nil: only the non-nil side is feasible
+					if bo.Op == token.EQL {
+						walk(f.To, b, k2, seen)
+					} else {
+						walk(t.To, b, k2, seen)
+					}
+					return
+				}
+			}
+		}
+		for _, s := range b.Succs {
+			walk(s, b, k2, seen)
+		}
+	}
+	for _, ne := range nonNilE {
+		known := map[ssa.Value]bool{}
+		for a := range Aliases(e) {
+			if _, isPhi := a.(*ssa.Phi); !isPhi {
+				known[a] = true
+			}
+		}
+		// the tested value itself is non-nil on this edge
+		if iff, isIf := ne.From.Instrs[len(ne.From.Instrs)-1].(*ssa.If); isIf {
+			if cond, _, _ := ifEdges(iff); cond != nil {
+				if bo, isBin := cond.(*ssa.BinOp); isBin {
+					known[bo.X], known[bo.Y] = true, true
+				}
+			}
+		}
+		walk(ne.To, ne.From, known, map[state]bool{})
+	}
+	return ok
 }
 
 // c15Truncation: io.ReadAll over a limited reader stops silently at the limit
@@ -1016,6 +1118,124 @@ func c15QueryInputs(fn *ssa.Function, key string, depth int) []map[ssa.Value]boo
 	return out
 }
 
+// c15DecodeTargetsFresh: every (*json.Decoder).Decode / json.Unmarshal target
+// reached from the page function pg (in pg or in helpers it calls, depth 2)
+// is rooted in an allocation made while handling this page: a local of pg or
+// of a helper below it; a parameter is followed to the callers — an
+// allocation in a caller is fresh only inside the loop that calls the page
+// function; captured variables, fields and globals outlive a page unless a
+// zeroing store to the target precedes the decode.
+func c15DecodeTargetsFresh(c *Ctx, pg *ssa.Function, drivers []c15Driver) (bool, string) {
+	isDecode := func(n string) bool { return n == "(*encoding/json.Decoder).Decode" || n == "encoding/json.Unmarshal" }
+	// the activations that handle one page: pg and its helpers
+	perPage := map[*ssa.Function]bool{pg: true}
+	var below func(f *ssa.Function, d int)
+	below = func(f *ssa.Function, d int) {
+		if d == 0 {
+			return
+		}
+		for _, ci := range Calls(f, func(string) bool { return true }) {
+			if h := StaticCallee(ci); h != nil && inModule(h) && len(h.Blocks) > 0 && !perPage[h] && !c15IsPageFn(h) {
+				perPage[h] = true
+				below(h, d-1)
+			}
+		}
+	}
+	below(pg, 2)
+	var fresh func(f *ssa.Function, v ssa.Value, at ssa.Instruction, depth int) (bool, string)
+	fresh = func(f *ssa.Function, v ssa.Value, at ssa.Instruction, depth int) (bool, string) {
+		for _, r := range Roots(v) {
+			r = strip(r)
+			// zeroed before use
+			zeroed := false
+			AllInstrs(f, func(in ssa.Instruction) {
+				if st, ok := in.(*ssa.Store); ok && (st.Addr == r || SameValue(st.Addr, r)) && at != nil && MustPass(at, newCut().Instr(st)) {
+					if _, isAlloc := r.(*ssa.Alloc); !isAlloc {
+						zeroed = true
+					}
+				}
+			})
+			if zeroed {
+				continue
+			}
+			switch u := r.(type) {
+			case *ssa.Alloc:
+				if perPage[f] || c15IsPageFn(f) { // a local of this page's handling, or of another page function sharing the helper
+					continue
+				}
+				// an allocation in a caller: fresh only if made inside the loop around the page call
+				inLoop := false
+				for _, l := range Loops(f) {
+					if l.Contains(u) && at != nil && l.Contains(at) {
+						inLoop = true
+					}
+				}
+				if !inLoop {
+					return false, fmt.Sprintf("the decode target is a variable of %s that lives across pages (allocated at %s): members missing from a later page keep the previous page's items and slices handed to the callback are overwritten", FnName(f), c.P.Pos(u.Pos()))
+				}
+			case *ssa.Parameter:
+				if depth <= 0 {
+					return false, "the decode target is handed down through too many calls to be followed"
+				}
+				idx := -1
+				for i, q := range f.Params {
+					if q == u {
+						idx = i
+					}
+				}
+				callers := 0
+				for _, rel := range c15Pkgs {
+					for _, g := range c.P.FuncsOfPkg(rel) {
+						for _, call := range c13CallsToFn(g, f) {
+							callers++
+							if ok, why := fresh(g, call.Common().Args[idx], call.(ssa.Instruction), depth-1); !ok {
+								return false, why
+							}
+						}
+					}
+				}
+				if callers == 0 {
+					return false, "the decode target is a parameter for which no caller was found"
+				}
+			default:
+				return false, fmt.Sprintf("the decode target (%s) is a captured variable, field or global that outlives one page and is not reset before the decode", describe(r))
+			}
+		}
+		return true, ""
+	}
+	for f := range perPage {
+		for _, d := range Calls(f, isDecode) {
+			args := d.Common().Args
+			if ok, why := fresh(f, args[len(args)-1], d.(ssa.Instruction), 3); !ok {
+				return false, why
+			}
+		}
+	}
+	_ = drivers
+	return true, ""
+}
+
+// c15FeedsRequestURL: a value of vals is the URL of the request built by fn
+// (http.NewRequestWithContext), directly or in a helper fn hands it to.
+func c15FeedsRequestURL(fn *ssa.Function, vals map[ssa.Value]bool, depth int) bool {
+	for _, nr := range CallsTo(fn, "net/http.NewRequestWithContext") {
+		if vals[nr.Common().Args[2]] {
+			return true
+		}
+	}
+	if depth <= 0 {
+		return false
+	}
+	calls, idxs := c13RespParamCalls(fn, vals)
+	for k, call := range calls {
+		h := StaticCallee(call)
+		if h != fn && c15FeedsRequestURL(h, Aliases(h.Params[idxs[k]]), depth-1) {
+			return true
+		}
+	}
+	return false
+}
+
 // c15FeedsLastParam: a value of vals becomes the `last` query parameter:
 // Values.Set("last", v) in fn, or in a helper fn hands it to (depth).
 func c15FeedsLastParam(fn *ssa.Function, vals map[ssa.Value]bool, depth int) bool {
@@ -1050,10 +1270,15 @@ type c15Driver struct {
 
 func c15IsFetcherType(t types.Type) bool {
 	sig, ok := types.Unalias(t).Underlying().(*types.Signature)
-	if !ok || sig.Params().Len() != 1 || sig.Results().Len() != 2 {
+	if !ok || sig.Params().Len() < 1 || sig.Params().Len() > 2 || sig.Results().Len() != 2 {
 		return false
 	}
-	return types.Identical(sig.Params().At(0).Type(), types.Typ[types.String]) && types.Identical(sig.Results().At(0).Type(), types.Typ[types.String]) && isErrorType(sig.Results().At(1).Type())
+	for i := 0; i < sig.Params().Len(); i++ { // (url) or (url, last)
+		if !types.Identical(sig.Params().At(i).Type(), types.Typ[types.String]) {
+			return false
+		}
+	}
+	return types.Identical(sig.Results().At(0).Type(), types.Typ[types.String]) && isErrorType(sig.Results().At(1).Type())
 }
 
 func c15Drivers(p *Prog) []c15Driver {
@@ -1128,7 +1353,9 @@ func c15LinkFns(p *Prog) []*ssa.Function {
 	})
 }
 
-const c15NoLink = "~/registry/remote.errNoLink"
+// c15NoLink: the end-of-pages sentinel, resolved by role in c15R2: the package-level error the link parser returns
+// when the response carries no Link header (errNoLink on the pinned tree).
+var c15NoLink = "~/registry/remote.errNoLink"
 
 func c15R2(c *Ctx) {
 	const (
@@ -1137,32 +1364,42 @@ func c15R2(c *Ctx) {
 		RK = "C15.R2.link-parser"
 	)
 	c.Expect(RL, 9) // per loop 4 (+ last-first-page-only); with one shared generic driver: 4 + per bound page fetcher 1 (+ last): 9 is the minimum
-	c.Expect(RP, 23)
+	c.Expect(RP, 26)
 	c.Expect(RK, 3)
-	if c.P.Obj(c13PkgRemote, "errNoLink") == nil {
-		c.LostAnchor(RL, c15NoLink+" (end-of-pages sentinel)")
-		return
-	}
-	drivers := c15Drivers(c.P)
-	if len(drivers) == 0 {
-		c.LostAnchor(RL, "page loops (a loop calling a page function, or a func(string) (string, error) parameter) in ~/registry/remote")
-		return
-	}
 	links := c15LinkFns(c.P)
 	if len(links) != 1 {
 		c.LostAnchor(RK, fmt.Sprintf("link parser func(*http.Response) (string, error) in ~/registry/remote (found %d)", len(links)))
 		return
 	}
 	LK := links[0]
+	// the sentinel by role: the package-level error variable the link parser returns
+	sentinels := map[string]bool{}
+	for _, a := range RetAtoms(LK, 1) {
+		if ld, ok := a.Val.(*ssa.UnOp); ok && ld.Op == token.MUL {
+			if _, isG := ld.X.(*ssa.Global); isG {
+				sentinels[sentinelName(a.Val)] = true
+			}
+		}
+	}
+	if len(sentinels) != 1 {
+		c.LostAnchor(RL, fmt.Sprintf("end-of-pages sentinel (the package-level error returned by %s; found %d)", FnName(LK), len(sentinels)))
+		return
+	}
+	for name := range sentinels {
+		c15NoLink = name
+	}
+	drivers := c15Drivers(c.P)
+	if len(drivers) == 0 {
+		c.LostAnchor(RL, "page loops (a loop calling a page function, or a func(string) (string, error) parameter) in ~/registry/remote")
+		return
+	}
 	pages := map[*ssa.Function]bool{}
 	pageIdx := func(pg *ssa.Function) (urlIdx, lastIdx int) {
 		urlIdx, lastIdx = -1, -1
 		for i, prm := range pg.Params {
 			al := Aliases(prm)
-			for _, nr := range CallsTo(pg, "net/http.NewRequestWithContext") {
-				if al[nr.Common().Args[2]] {
-					urlIdx = i
-				}
+			if c15FeedsRequestURL(pg, al, 2) {
+				urlIdx = i
 			}
 			if c15FeedsLastParam(pg, al, 2) {
 				lastIdx = i
@@ -1195,21 +1432,85 @@ func c15R2(c *Ctx) {
 			}
 		}
 		P0 := inLoop[0]
+		// how an argument of an in-loop page call is carried around the loop: "advancing" = fed from the page call's
+		// first result, "cleared" = "" from the second iteration on; the carrier is a loop phi or a struct field
+		// (a cursor object) that every path round the loop stores into
+		carried := func(P ssa.CallInstruction, arg ssa.Value) string {
+			if phi, isPhi := arg.(*ssa.Phi); isPhi && phi.Block() == l.Header {
+				adv, clr := true, true
+				for i, pred := range phi.Block().Preds {
+					if !l.Blocks[pred] {
+						continue
+					}
+					if !c13RootsIn(phi.Edges[i], next) {
+						adv = false
+					}
+					if sv, isC := constString(phi.Edges[i]); !isC || sv != "" {
+						clr = false
+					}
+				}
+				switch {
+				case adv:
+					return "advancing"
+				case clr:
+					return "cleared"
+				}
+				return ""
+			}
+			ld, isLoad := strip(arg).(*ssa.UnOp)
+			if !isLoad || ld.Op != token.MUL {
+				return ""
+			}
+			fa, isFA := ld.X.(*ssa.FieldAddr)
+			if !isFA {
+				return ""
+			}
+			var advS, clrS []ssa.Instruction
+			AllInstrs(f, func(in ssa.Instruction) {
+				st, ok := in.(*ssa.Store)
+				if !ok {
+					return
+				}
+				f2, ok := st.Addr.(*ssa.FieldAddr)
+				if !ok || f2.Field != fa.Field || !(f2.X == fa.X || SameValue(f2.X, fa.X)) {
+					return
+				}
+				if next[st.Val] || c13RootsIn(st.Val, next) {
+					advS = append(advS, st)
+				}
+				if sv, isC := constString(st.Val); isC && sv == "" {
+					clrS = append(clrS, st)
+				}
+			})
+			Pi := P.(ssa.Instruction)
+			switch {
+			case len(advS) > 0 && MustPassBetween(Pi, Pi, newCut().Instr(advS...)):
+				return "advancing"
+			case len(clrS) > 0 && MustPassBetween(Pi, Pi, newCut().Instr(clrS...)):
+				return "cleared"
+			}
+			return ""
+		}
+		advIdx, clrIdx := -1, -1
+		if d.fetch != nil {
+			for i, a := range P0.Common().Args {
+				switch carried(P0, a) {
+				case "advancing":
+					advIdx = i
+				case "cleared":
+					clrIdx = i
+				}
+			}
+			urlIdx = advIdx
+		}
 		// (1) url advances
 		okURL, why := urlIdx >= 0, "the page function's URL parameter was not identified"
 		for _, P := range inLoop {
 			if urlIdx < 0 {
 				break
 			}
-			phi, isPhi := P.Common().Args[urlIdx].(*ssa.Phi)
-			if !isPhi || phi.Block() != l.Header {
+			if carried(P, P.Common().Args[urlIdx]) != "advancing" {
 				okURL, why = false, "the URL argument of the page call is not a loop-carried value fed from the page function's first result"
-				continue
-			}
-			for i, pred := range phi.Block().Preds {
-				if l.Blocks[pred] && !c13RootsIn(phi.Edges[i], next) {
-					okURL, why = false, "the URL argument of the page call is not a loop-carried value fed from the page function's first result"
-				}
 			}
 		}
 		c.Check(RL, fnm+"|url-advances", P0.Pos(), okURL, ifelse(okURL, "the URL sent on the next iteration is the link returned by the page function", why+": the same page would be requested for ever"))
@@ -1343,7 +1644,20 @@ func c15R2(c *Ctx) {
 				pg := StaticCallee(pc)
 				pages[pg] = true
 				uI, lI := pageIdx(pg)
-				okFwd := uI >= 0 && len(K.Params) > 0 && Aliases(K.Params[len(K.Params)-1])[pc.Common().Args[uI]]
+				// the fetcher's own parameters (after the captured variables): which one is the URL, which one `last`
+				kparams := K.Params
+				if len(kparams) > len(call.Common().Args) { // method values etc. are not expected here
+					kparams = kparams[len(kparams)-1:]
+				}
+				posOf := func(v ssa.Value) int {
+					for j, kp := range kparams {
+						if Aliases(kp)[v] {
+							return j
+						}
+					}
+					return -1
+				}
+				okFwd := uI >= 0 && advIdx >= 0 && posOf(pc.Common().Args[uI]) == advIdx
 				nextV, errV := c13AliasSet(ResultOf(pc, 0)), c13AliasSet(ErrOf(pc))
 				for _, ra := range RetAtoms(K, 0) {
 					if !nextV[ra.Val] {
@@ -1364,6 +1678,9 @@ func c15R2(c *Ctx) {
 				larg := pc.Common().Args[lI]
 				if s, isConst := constString(larg); isConst && s == "" {
 					okLast = true
+				}
+				if clrIdx >= 0 && posOf(larg) == clrIdx {
+					okLast = true // the driver hands the value in and clears it after the first page
 				}
 				for _, r := range Roots(larg) {
 					ld, isLoad := r.(*ssa.UnOp)
@@ -1476,6 +1793,10 @@ func c15R2(c *Ctx) {
 		}
 		c.Check(RP, pn+"|end-of-listing-only-from-link-parser", pg.Pos(), okSent,
 			ifelse(okSent, "every return after the exchange whose error may be nil or errNoLink returns the link parser's own error result", whySent))
+		// the decode target of a page is fresh per page (encoding/json keeps members the document lacks and reuses the
+		// backing array of a slice: a target that outlives one page would re-deliver or overwrite earlier items)
+		okFresh, whyFresh := c15DecodeTargetsFresh(c, pg, drivers)
+		c.Check(RP, pn+"|decode-target-fresh", pg.Pos(), okFresh, ifelse(okFresh, "every JSON decode of this page writes into a variable allocated (or zeroed) within the handling of this page", whyFresh))
 		// the pagination parameters reach the request: on every path to the exchange the value was put into the
 		// query that is stored back, or is absent (last == "" / page size <= 0)
 		for _, qp := range []struct {
@@ -1484,7 +1805,7 @@ func c15R2(c *Ctx) {
 		}{{"last", false}, {"n", true}} {
 			for _, vals := range c15QueryInputs(pg, qp.key, 2) {
 				ct, _ := c13FactCut(pg, vals, c15QueryFact(qp.key, qp.numeric), 2)
-				ok := (len(ct.instrs) > 0) && MustPass(site.(ssa.Instruction), ct)
+				ok := (len(ct.instrs) > 0 || len(ct.edges) > 0) && MustPass(site.(ssa.Instruction), ct)
 				c.Check(RP, pn+"|query-carries:"+qp.key, site.Pos(), ok,
 					ifelse(ok, "every path to the exchange sets `"+qp.key+"` on the query stored back into the URL, or found the value absent",
 						"the request can be sent without the `"+qp.key+"` parameter although a value was given: the listing starts from the wrong position / ignores the page size"))
@@ -1613,9 +1934,36 @@ func c15R3(c *Ctx) {
 	for _, g := range applied {
 		isApplied[g] = true
 	}
-	appliedClass := func(cond ssa.Value) (bool, bool) {
+	var appliedClass c13CondClass
+	appliedClass = func(cond ssa.Value) (bool, bool) {
 		call, ok := cond.(*ssa.Call)
-		return ok && isApplied[StaticCallee(call)], false
+		if !ok {
+			return false, false
+		}
+		if isApplied[StaticCallee(call)] {
+			return true, false
+		}
+		// slices.ContainsFunc(declarations, pred): true ⇒ some declaration satisfies pred; counts when pred's true does
+		if CalleeName(call) == "slices.ContainsFunc" && len(call.Call.Args) == 2 {
+			var K *ssa.Function
+			switch k := strip(call.Call.Args[1]).(type) {
+			case *ssa.MakeClosure:
+				K = k.Fn.(*ssa.Function)
+			case *ssa.Function:
+				K = k
+			}
+			if K != nil && len(K.Blocks) > 0 {
+				cf := c13NewCondFacts(K, appliedClass)
+				all := true
+				for _, a := range RetAtoms(K, 0) {
+					if !cf.Implies(a.Val, true, 0) && c13AtomReach(K.Blocks[0], 0, a, newCut().Edges(cf.list()...)) {
+						all = false
+					}
+				}
+				return all, false
+			}
+		}
+		return false, false
 	}
 	// okList: every way the list value v (used at `target` in fn) is established is either the filter's
 	// result (directly or through a helper all of whose results are), or — only where the server may have
@@ -2071,6 +2419,39 @@ func c15CheckStreamLister(c *Ctx, R4 string, f *ssa.Function, cb ssa.CallInstruc
 		}
 	}
 	seq := collect.Call.Args[0]
+	// maps.Keys(m) of a map pruned with maps.DeleteFunc(m, pred): the remaining keys are those for which pred is false
+	if kc, isCall := strip(seq).(*ssa.Call); isCall && CalleeName(kc) == "maps.Keys" {
+		pruned := func(base func(fn *ssa.Function, sets []map[ssa.Value]bool) c13CondClass) (bool, string) {
+			m := kc.Call.Args[0]
+			mal := Aliases(m)
+			for _, dc := range Calls(f, func(n string) bool { return n == "maps.DeleteFunc" }) {
+				da := dc.Common().Args
+				if len(da) != 2 || !(mal[da[0]] || SameValue(da[0], m)) || !MustPass(kc, newCut().Instr(dc.(ssa.Instruction))) {
+					continue
+				}
+				o := c13OriginOf(da[1], top)
+				var kf *c13Frame
+				switch k := o.Val.(type) {
+				case *ssa.MakeClosure:
+					kf = &c13Frame{Fn: k.Fn.(*ssa.Function), MC: k, Parent: o.Frame}
+				case *ssa.Function:
+					kf = &c13Frame{Fn: k, Parent: top}
+				}
+				if kf == nil || len(kf.Fn.Blocks) == 0 || len(kf.Fn.Params) == 0 {
+					continue
+				}
+				if _, hf := c13PredicateImplies(kf, base, setsOf, Aliases(kf.Fn.Params[0]), 3); hf {
+					return true, ""
+				}
+			}
+			return false, "no maps.DeleteFunc on the listed map removes the entries violating the condition before its keys are taken"
+		}
+		okAfter, whyA := pruned(c15AfterOrNoLastBase)
+		c.Check(R4, fn+"|only-tags-after-last", cb.Pos(), okAfter, ifelse(okAfter, "the keys listed are those left after deleting every entry with last != \"\" && tag <= last", "a tag not after `last` can be listed: "+whyA))
+		okDg, whyD := pruned(c15NotDigestBase)
+		c.Check(R4, fn+"|digest-entries-skipped", cb.Pos(), okDg, ifelse(okDg, "the keys listed are those left after deleting every entry named by its own digest", "digest-named entries of the tag map can be listed as tags: "+whyD))
+		return
+	}
 	okAfter, whyA := c13StreamHasFact(seq, top, mk(c15AfterOrNoLastBase), 16)
 	c.Check(R4, fn+"|only-tags-after-last", cb.Pos(), okAfter, ifelse(okAfter, "every element of the iterator pipeline passed last == \"\" or tag > last", "a tag not after `last` can be listed: "+whyA))
 	okDg, whyD := c13StreamHasFact(seq, top, mk(c15NotDigestBase), 16)
@@ -2241,6 +2622,10 @@ var c15Mutants = []Mutant{
 	{Name: "repositories-n-only-with-last", File: "registry/remote/registry.go",
 		Old:    "\tif r.RepositoryListPageSize > 0 || last != \"\" {",
 		New:    "\tif last != \"\" {",
+		Expect: "C15.R2.page-function"},
+	{Name: "tags-page-struct-shared", File: "registry/remote/repository.go",
+		Old:    "\tvar page struct {\n\t\tTags []string `json:\"tags\"`\n\t}\n\tlr := limitReader(resp.Body, r.MaxMetadataBytes)\n\tif err := json.NewDecoder(lr).Decode(&page); err != nil {\n\t\treturn \"\", fmt.Errorf(\"%s %q: failed to decode response: %w\", resp.Request.Method, resp.Request.URL, err)\n\t}\n\tif err := fn(page.Tags); err != nil {\n\t\treturn \"\", err\n\t}\n\n\treturn parseLink(resp)\n}\n",
+		New:    "\tpage := &sharedTagsPage\n\tlr := limitReader(resp.Body, r.MaxMetadataBytes)\n\tif err := json.NewDecoder(lr).Decode(page); err != nil {\n\t\treturn \"\", fmt.Errorf(\"%s %q: failed to decode response: %w\", resp.Request.Method, resp.Request.URL, err)\n\t}\n\tif err := fn(page.Tags); err != nil {\n\t\treturn \"\", err\n\t}\n\n\treturn parseLink(resp)\n}\n\n// sharedTagsPage is reused by every tag list request to save allocations.\nvar sharedTagsPage struct {\n\tTags []string `json:\"tags\"`\n}\n",
 		Expect: "C15.R2.page-function"},
 	{Name: "link-malformed-ends-listing", File: "registry/remote/utils.go",
 		Old:    "\tif link[0] != '<' {\n\t\treturn \"\", fmt.Errorf(\"invalid next link %q: missing '<'\", link)\n\t}",
